@@ -67,6 +67,24 @@ check('C01', 'Hypothesis-generated X programs and inputs; differential against a
       'Program size is bounded by tier parameters.',
       'DESIGN.md 6 C01')
 
+check('C07', 'Hypothesis-generated expression trees, metamorphic relation between all-constant / mixed / all-run-time variants plus an independent evaluator',
+      'For each tree, leaf assignment, constant mask and context, three programs (K all-constant, M mixed, R all-run-time) are compiled by the working-tree xcmp and '
+      'run on hexsim and refisa; all three must exit with the value a Python evaluator gives (wrap-around + - neg, exact relational operators).',
+      'Run-time leaves are global variables assigned from literals in main. Known finding KF-C07-01 (comparison whose operand difference overflows) is excluded '
+      'by construction and counted while open; its witness is replayed on every run.',
+      'DESIGN.md 6 C07')
+check('C08', 'Hypothesis-generated X programs (normal, deep-recursion and array-filling modes) executed on the ISA reference under an on-line access monitor',
+      'Every fetch/load/store of the compiled program is checked against regions derived from the binary itself: inside the 200000-word memory, no store to a fetched '
+      'word (both orders), stores only in image data words or above the image, mem[1] never above its load-time value and equal to it whenever control returns from main.',
+      'Trusted: refisa/refmon. Depth and array sizes are generator parameters chosen with a margin below the stack budget.',
+      'DESIGN.md 6 C08')
+check('C15', 'Hypothesis-generated X programs; hexsim -t output parsed under the guidance of the ISA reference trace; call events matched to the reference interpreter\'s call sequence',
+      'Symbol table read back from the binary (names, order), call events LDAP..BR of the ISA trace must land on the table offset of the callee the reference interpreter '
+      'calls next, every trace line must show the count, address, mnemonic, nibble and symbol+offset of the byte the ISA reference executes at that step, and offset-0 '
+      'lines must spell the call sequence.',
+      'When two operands whose order X leaves open both perform calls only the multiset of calls is compared. Free-form remainder of trace lines unchecked.',
+      'DESIGN.md 6 C15')
+
 NOT_YET = {}
 
 def main():
